@@ -77,7 +77,18 @@ func (p *Parser) validateDeactivateRequest(req *model.DeactivateRequest) error {
 		return errors.New("missing signed data")
 	}
 
-	return p.validateMultihash(req.RevealValue, "reveal value")
+	if err := p.validateMultihash(req.RevealValue, "reveal value"); err != nil {
+		return err
+	}
+
+	// the request is parsed as what it is filed as (in a batch file, in the operation store): one that says itself to
+	// be of another type would be looked at in two ways - its next commitment is extracted according to its own type
+	// member when the commitment chain is followed - and is refused
+	if req.Operation != operation.TypeDeactivate {
+		return fmt.Errorf("operation type [%s] is not %s", req.Operation, operation.TypeDeactivate)
+	}
+
+	return nil
 }
 
 // ParseSignedDataForDeactivate will parse and validate signed data for deactivate.
